@@ -15,7 +15,7 @@ def run(prop, tier, seed, ctx):
                        "length bound), executed in one forked process through Bundle.run_ics_bundle; every grading's "
                        "(label, title, message, correct, score, student output, error) is compared with the pair's "
                        "fresh-interpreter baseline; non-trivial = history of length >= 2; distinct = distinct history")
-    cfgs = ["MC_Grading_q.cfg", "MC_Grading_types_q.cfg", "MC_Grading_scripts2_q.cfg", "MC_Grading_modules_q.cfg", "MC_Grading_cover_q.cfg", "MC_Grading_vpl_q.cfg", "MC_Grading_files_q.cfg", "MC_Grading_mocks_q.cfg"] if tier == "quick" else ["MC_Grading_t.cfg", "MC_Grading_t3.cfg", "MC_Grading_types_q.cfg", "MC_Grading_types_t.cfg", "MC_Grading_scripts2_q.cfg", "MC_Grading_modules_q.cfg", "MC_Grading_cover_q.cfg", "MC_Grading_vpl_q.cfg", "MC_Grading_files_q.cfg", "MC_Grading_mocks_q.cfg"]
+    cfgs = ["MC_Grading_q.cfg", "MC_Grading_types_q.cfg", "MC_Grading_scripts2_q.cfg", "MC_Grading_modules_q.cfg", "MC_Grading_cover_q.cfg", "MC_Grading_vpl_q.cfg", "MC_Grading_files_q.cfg", "MC_Grading_mocks_q.cfg", "MC_Grading_verify_q.cfg"] if tier == "quick" else ["MC_Grading_t.cfg", "MC_Grading_t3.cfg", "MC_Grading_types_q.cfg", "MC_Grading_types_t.cfg", "MC_Grading_scripts2_q.cfg", "MC_Grading_modules_q.cfg", "MC_Grading_cover_q.cfg", "MC_Grading_vpl_q.cfg", "MC_Grading_files_q.cfg", "MC_Grading_mocks_q.cfg", "MC_Grading_verify_q.cfg"]
     hists = {}
     for cfg in cfgs:
         res = tlc.run("MC_Grading", cfg, workers=4, timeout=600)
